@@ -145,3 +145,9 @@ obligation('C04', 'C04-3b BridgeTransfer: withdrawal event id honoured at most o
 
 from obligations.c18 import ics20_obligation
 obligation('C04', 'C04-3c Ics20Withdrawal on behalf of a bridge: withdrawal event id honoured at most once')(ics20_obligation('C04'))
+
+
+# deposits published by the IBC paths (receive to a bridge account, refund of a rollup withdrawal): decided by the C18 obligations, registered here as well
+from obligations import c18 as _c18
+obligation('C04', 'C04-2c ICS20 receive to a bridge account: exactly one deposit, of the credited amount, in the bridge\'s own asset, together with the credit')(_c18.c18_3)
+obligation('C04', 'C04-2d ICS20 refund of a rollup withdrawal: exactly one deposit, of the credited amount, in the bridge\'s own asset, together with the credit')(_c18.c18_5)
